@@ -127,33 +127,33 @@ def hist_sig(h):
 
 # ---------------------------------------------------------------------------------------------------------
 
-def select_programs(chk, seed, n, maxforms, name):
-    """n programs of the family whose batch behaviour TLC (AldorSem, both operand orders) gives as normal termination."""
-    out = []
-    k = 0
-    stats = {}
-    while len(out) < n and k < 6:
-        cands = replhist.small_programs(seed * 31 + k, int(n * 1.6) + 4, maxforms=maxforms)
-        pairs = [(c, replhist.add_markers(c)) for c in cands]
-        pairs = [(c, m) for (c, m) in pairs if m is not None]
-        fam = progcheck.Family(chk, [m for (_, m) in pairs], "%s-select%d" % (name, k), workers=min(8, vlib.NCPU), timeout=600)
-        for s, c in fam.status_count.items():
-            stats[s] = stats.get(s, 0) + c
-        for p, m in pairs:
-            e = fam.exp[m["id"]]
-            if e["status"] == "done" and len(out) < n:
-                out.append((p, e))
-        k += 1
-    return out, stats
+def select_programs(chk, seed, groups, rng):
+    """groups: [(n, maxforms, maxbad, ncat, force)].  For every group n programs of the family (at most maxforms top-level
+    forms) whose batch behaviour TLC (AldorSem, both operand orders) gives as normal termination, prepared for Repl.tla.
+    One TLC run evaluates the candidates of all groups."""
+    cands = []
+    for gi, (n, maxforms, maxbad, ncat, force) in enumerate(groups):
+        for c in replhist.small_programs(seed * 31 + gi, int(n * 1.7) + 5, maxforms=maxforms):
+            m = replhist.add_markers(c)
+            if m is not None:
+                cands.append((gi, c, m))
+    fam = progcheck.Family(chk, [m for (_, _, m) in cands], "select", workers=vlib.NCPU, timeout=900)
+    progs, batch_exp = [], {}
+    got = [0] * len(groups)
+    for gi, c, m in cands:
+        n, maxforms, maxbad, ncat, force = groups[gi]
+        e = fam.exp[m["id"]]
+        if e["status"] == "done" and got[gi] < n:
+            q = replhist.prepare(c, rng, maxbad=maxbad, ncat=ncat, force=force)
+            progs.append(q)
+            batch_exp[q["id"]] = e
+            got[gi] += 1
+    if got != [g[0] for g in groups]:
+        raise vlib.MachineryError("only %s of %s programs selected" % (got, [g[0] for g in groups]))
+    return progs, batch_exp, dict(fam.status_count)
 
 
-def run_family(chk, b, wd, prefix, name, sel, rng, maxbad, ncat, force, verbose_every, layouts, per_route, all_lines=False):
-    progs = []
-    batch_exp = {}
-    for p, e in sel:
-        q = replhist.prepare(p, rng, maxbad=maxbad, ncat=ncat, force=force)
-        progs.append(q)
-        batch_exp[q["id"]] = e
+def run_family(chk, b, wd, prefix, name, progs, batch_exp, verbose_every, layouts, per_route, all_lines=False):
     d = vlib.scratch("c13progs")
     path = os.path.join(d, "progs.ndjson")
     vlib.write_ndjson(path, progs)
@@ -164,6 +164,14 @@ def run_family(chk, b, wd, prefix, name, sel, rng, maxbad, ncat, force, verbose_
         return
     hs = [json.loads(l[5:]) for l in r.printed if isinstance(l, str) and l.startswith("HIST ")]
     byid = {p["id"]: p for p in progs}
+    if os.environ.get("VERIF_C13_CORRUPT"):
+        # self-test of the binding: one field of one exported history is corrupted (an output atom of the specified session
+        # is changed); the replay must reject that history (see SELFTEST_NOTES)
+        for h in hs:
+            nums = [i for i, a in enumerate(h["out"]) if isinstance(a, dict)]
+            if nums:
+                h["out"][nums[0]] = {"neg": not h["out"][nums[0]]["neg"], "ds": h["out"][nums[0]]["ds"] + [7]}
+                break
     # machinery consistency: the batch machine inside Repl.tla and the plain AldorSem run agree; every program has its plain history
     plain = set()
     for h in hs:
@@ -208,12 +216,12 @@ def run_family(chk, b, wd, prefix, name, sel, rng, maxbad, ncat, force, verbose_
             return {"rc": rc, "out": out.decode(errors="replace"), "err": err.decode(errors="replace"), "phase": "interp", "timeout": to}
         text, steps, ends = replhist.render_history(p, h["hist"], verbose=verbose, layout=layout)
         res = run_loop(b, text, dd, prefix)
-        res["ends"] = ends
         v = judge(h, res)
         if v is not None and v[0] == "loop-hang" and not res["dialogue"]:
             res = run_loop(b, text, dd, prefix, timeout=200)      # a loaded machine is not a hang
             v = judge(h, res)
         res["text"] = text
+        res["ends"] = ends
         res["verdict"] = v
         return res
     with concurrent.futures.ThreadPoolExecutor(max_workers=vlib.NCPU) as ex:
@@ -253,8 +261,8 @@ def run_family(chk, b, wd, prefix, name, sel, rng, maxbad, ncat, force, verbose_
     lrecs = [("%s/%s/%s/%s" % (name, job[1]["id"], hist_sig(job[2]), job[5]), res["text"], res["ends"])
              for job, res in zip(jobs, results) if job[0] == "loop" and (job[5] != "line" or all_lines)]
     lines_phase(chk, b, name, lrecs)
-    for p in progs[:2]:
-        hh = [h for h in hs if h["id"] == p["id"] and sum(1 for it in h["hist"] if it["k"] != "ok") == min(2, maxbad)]
+    for p in progs[:1] + progs[-1:]:
+        hh = [h for h in hs if h["id"] == p["id"] and sum(1 for it in h["hist"] if it["k"] != "ok") == p["maxbad"]]
         if hh and len(chk.samples) < 4:
             h = hh[len(hh) // 2]
             chk.sample({"history": hist_sig(h), "input": replhist.render_history(p, h["hist"])[0][-1500:],
@@ -289,6 +297,12 @@ def fixed_histories(chk, b, wd, prefix, per_route):
 
 
 def run(chk, tier):
+    import time
+    t0 = time.time()
+    phases = chk.extra.setdefault("phase_wall_s", {})
+
+    def mark(name):
+        phases[name] = round(time.time() - t0 - sum(phases.values()), 1)
     b = vlib.vbuild()
     wd = vlib.scratch("c13")
     prefix = _setarch()
@@ -301,26 +315,33 @@ def run(chk, tier):
     chk.extra["layout_shape_sequences"] = len(shapes)
     for rid, _, _ in shapes:
         chk.case(("shapes", rid))
+    mark("shapes")
+    # 1b. the roll-back of a rejected step (implementation-shaped model): the repaired design must keep the session usable;
+    #     the design as written is expected to have the counterexample that the replay reproduces (recorded, not judged)
+    r = vlib.tlc("ReplUndo", "ReplUndoFixed", workers=4, timeout=300)
+    chk.add_tlc("ReplUndoFixed", r)
+    if r.violated:
+        chk.violation("ReplUndo.tla (repaired roll-back) violates %s" % r.violated, r.trace_text, key={"model": "ReplUndo", "inv": r.violated})
+    r = vlib.tlc("ReplUndo", "ReplUndoAsWritten", workers=4, timeout=300)
+    chk.add_tlc("ReplUndoAsWritten", r)
+    import re
+    logs = re.findall(r"log = (<<.*>>)", r.trace_text or "")
+    chk.extra["undo_model_as_written"] = {"violates": r.violated, "counterexample": logs[-1] if logs else None,
+                                          "note": "implementation-shaped; corresponds to the history shape declaring-error-then-parse-error"}
+    mark("undo-model")
     # 2. histories
     mixed = ["line", "braces", "line", "piled", "line", "paren", "line"]
     if tier == "quick":
-        plan = [  # name, programs, maxforms, maxbad, ncat, forced catalogue kinds, verbose every n-th, layouts
-            ("one", 8, 6, 1, None, (), 5, mixed),
-            ("two", 2, 5, 2, 3, ("syntax", "shadow"), 7, mixed),
-        ]
+        # (programs, max top-level forms, maxbad, catalogue entries drawn (None = all), forced catalogue kinds)
+        groups = [(8, 6, 1, None, ()), (2, 5, 2, 3, ("syntax", "shadow"))]
+        vev, layouts = 5, mixed
     else:
-        plan = [
-            ("one", 110, 8, 1, None, (), 4, ["line", "braces", "piled", "paren"]),
-            ("two", 20, 6, 2, 5, ("syntax", "shadow"), 5, ["line", "braces", "line", "piled", "line", "paren"]),
-        ]
-    stats = {}
-    for i, (name, n, maxforms, maxbad, ncat, force, vev, layouts) in enumerate(plan):
-        sel, st = select_programs(chk, seed + 101 * i, n, maxforms, name)
-        for s, c in st.items():
-            stats[s] = stats.get(s, 0) + c
-        if len(sel) < n:
-            raise vlib.MachineryError("only %d of %d programs selected" % (len(sel), n))
-        run_family(chk, b, wd, prefix, name, sel, rng, maxbad, ncat, force, vev, layouts, per_route)
+        groups = [(110, 8, 1, None, ()), (20, 6, 2, 5, ("syntax", "shadow"))]
+        vev, layouts = 4, ["line", "braces", "piled", "paren", "line"]
+    progs, batch_exp, stats = select_programs(chk, seed, groups, rng)
+    mark("select")
+    run_family(chk, b, wd, prefix, "hist", progs, batch_exp, vev, layouts, per_route)
+    mark("histories")
     # 3. fixed sessions
     fixed_histories(chk, b, wd, prefix, per_route)
     chk.extra["candidate_programs_by_status"] = stats
